@@ -35,6 +35,9 @@ for d in sorted(glob.glob("/tmp/seedout/C*/[ab]")):
         ),
         checks=old.get("checks", []),
     )
+    for k in ("expected_undetected", "detected_by", "analysis_errors", "verdict"):
+        if k in old:
+            meta[k] = old[k]
     json.dump(meta, open(meta_path, "w"), indent=1)
     kept += 1
 print("kept", kept)
